@@ -33,41 +33,104 @@ func (h *dlHost) SetStreamHandler(pid protocol.ID, handler network.StreamHandler
 
 type dlStream struct {
 	network.Stream
-	mu     sync.Mutex
-	timers []*time.Timer
-	done   bool
+	mu               sync.Mutex
+	rd, wd           time.Time // read / write deadlines (zero = none)
+	rTimer, wTimer   *time.Timer
+	reading, writing int // calls in progress
+	done             bool
 }
 
-func (s *dlStream) arm(t time.Time) {
+// A deadline only concerns reads (writes) that are in progress when it passes or that start after it: a
+// server that has finished reading its request is not affected by its read deadline any more.
+func (s *dlStream) armRead(t time.Time) {
 	s.mu.Lock()
 	defer s.mu.Unlock()
-	for _, tm := range s.timers {
-		tm.Stop()
+	if s.rTimer != nil {
+		s.rTimer.Stop()
+		s.rTimer = nil
 	}
-	s.timers = nil
+	s.rd = t
 	if t.IsZero() || s.done {
 		return
 	}
-	d := time.Until(t)
-	if d < 0 {
-		d = 0
+	s.rTimer = time.AfterFunc(max(time.Until(t), 0), func() {
+		s.mu.Lock()
+		blocked := s.reading > 0 && !s.done
+		s.mu.Unlock()
+		if blocked {
+			_ = s.Stream.Reset()
+		}
+	})
+}
+
+func (s *dlStream) armWrite(t time.Time) {
+	s.mu.Lock()
+	defer s.mu.Unlock()
+	if s.wTimer != nil {
+		s.wTimer.Stop()
+		s.wTimer = nil
 	}
-	s.timers = append(s.timers, time.AfterFunc(d, func() { _ = s.Stream.Reset() }))
+	s.wd = t
+	if t.IsZero() || s.done {
+		return
+	}
+	s.wTimer = time.AfterFunc(max(time.Until(t), 0), func() {
+		s.mu.Lock()
+		blocked := s.writing > 0 && !s.done
+		s.mu.Unlock()
+		if blocked {
+			_ = s.Stream.Reset()
+		}
+	})
+}
+
+func (s *dlStream) Read(p []byte) (int, error) {
+	s.mu.Lock()
+	if !s.rd.IsZero() && !time.Now().Before(s.rd) {
+		s.mu.Unlock()
+		_ = s.Stream.Reset()
+		return 0, network.ErrReset
+	}
+	s.reading++
+	s.mu.Unlock()
+	n, err := s.Stream.Read(p)
+	s.mu.Lock()
+	s.reading--
+	s.mu.Unlock()
+	return n, err
+}
+
+func (s *dlStream) Write(p []byte) (int, error) {
+	s.mu.Lock()
+	if !s.wd.IsZero() && !time.Now().Before(s.wd) {
+		s.mu.Unlock()
+		_ = s.Stream.Reset()
+		return 0, network.ErrReset
+	}
+	s.writing++
+	s.mu.Unlock()
+	n, err := s.Stream.Write(p)
+	s.mu.Lock()
+	s.writing--
+	s.mu.Unlock()
+	return n, err
 }
 
 func (s *dlStream) stop() {
 	s.mu.Lock()
 	s.done = true
-	for _, tm := range s.timers {
-		tm.Stop()
+	if s.rTimer != nil {
+		s.rTimer.Stop()
 	}
-	s.timers = nil
+	if s.wTimer != nil {
+		s.wTimer.Stop()
+	}
 	s.mu.Unlock()
 }
 
-func (s *dlStream) SetDeadline(t time.Time) error      { s.arm(t); return nil }
-func (s *dlStream) SetReadDeadline(t time.Time) error  { s.arm(t); return nil }
-func (s *dlStream) SetWriteDeadline(t time.Time) error { s.arm(t); return nil }
+func (s *dlStream) SetDeadline(t time.Time) error      { s.armRead(t); s.armWrite(t); return nil }
+func (s *dlStream) SetReadDeadline(t time.Time) error  { s.armRead(t); return nil }
+func (s *dlStream) SetWriteDeadline(t time.Time) error { s.armWrite(t); return nil }
 func (s *dlStream) Close() error                       { s.stop(); return s.Stream.Close() }
 func (s *dlStream) Reset() error                       { s.stop(); return s.Stream.Reset() }
 
